@@ -53,13 +53,13 @@ def meta(tier):
                 'inside, includer zone and local region resumed, mute state carried) and, for scope/zone-neutral blocks cut while '
                 'GLOBAL is selected, differentially against the real assembly of the unsplit program; plus a placement product '
                 '(unique / duplicated / missing file, same directory twice, file included twice, self-include, nested include '
-                'across directories); plus every include graph over three files (main includes one or two, the others nothing or one of the three; cycles, self-includes, diamonds) x each file with or without an #ifndef include guard, accepted iff no file is reached twice; non-trivial = split whose moved block is non-empty and whose program mentions a label; '
+                'across directories); plus every include graph over three files (main includes one or two, the others nothing or one of the three; cycles, self-includes, diamonds) x each file with or without an #ifndef include guard, accepted iff no file is reached twice; plus every sequence of up to 3 live / dead (#ifdef, #if 0, #else) includes of two files and a missing one: a dead #include includes nothing, looks nothing up, counts for nothing; non-trivial = split whose moved block is non-empty and whose program mentions a label; '
                 'states = distinct (program, cut) reference states',
         'bounds': {'alphabet': [R.render(u).strip().replace('\n', ' / ') for u in sigma(0)], 'length': '4 (all units)' if q else '4 (all units), 5 (9 core units)',
                    'cuts': 'all 0<=i<j<=L, nested all i<=k<l<=j (quick: nested only for L<=3)'},
         'assumptions': ['reference model: mc/refasm.py', 'a conditional chain is never split across files (units are whole chains)'],
         'floors': {'evaluations': 1000, 'nontrivial': 100, 'statuses': ['OK', 'REJECT'],
-                   'clauses': ['split-accepted', 'split-rejected', 'differential', 'placement-rejected', 'placement-accepted', 'graph-accepted', 'graph-rejected']},
+                   'clauses': ['split-accepted', 'split-rejected', 'differential', 'placement-rejected', 'placement-accepted', 'graph-accepted', 'graph-rejected', 'dead-include-accepted', 'dead-include-rejected']},
         'nshards': 64,
     }
 
@@ -120,6 +120,7 @@ def shard(acc, tier, idx, n):
                         acc.judge(clause='differential')     # (same executions as the split judgement: not counted again as a distinct case)
     placements(acc, idx, n)
     include_graphs(acc, idx, n)
+    dead_includes(acc, idx, n)
 
 
 def judge_equal(spec, outs):
@@ -229,6 +230,47 @@ def include_graphs(acc, idx, n):
                 acc.judge(clause='graph-accepted' if ref.status == 'OK' else 'graph-rejected', nontrivial_key=('g', mains, ea, eb, guards))
                 acc.state(('g', mains, ea, eb, guards))
                 if ctr % 97 == 0:
+                    acc.sample({'files': {k: R.render(v) for k, v in files.items()}, 'reference': spec})
+
+
+def dead_includes(acc, idx, n):
+    """An #include line in an unselected conditional branch is text like any other unselected line: it includes nothing, looks nothing
+    up and does not count as an inclusion.  Every sequence of up to 3 items over live / dead includes of two files and of a missing
+    file, the dead ones under #ifdef UNDEFINED, #if 0 and the #else of a taken #if."""
+    ctr = 0
+    wrappers = {'ifdef': ([('ifdef', 'NOT_DEFINED')], [('endif',)]),
+                'if0': ([('if', ('num', 0))], [('endif',)]),
+                'else': ([('if', ('num', 1)), ('data', 1, [0x5A]), ('else',)], [('endif',)])}
+    items = [('live', 'ga.asm'), ('live', 'gb.asm'), ('dead', 'ga.asm'), ('dead', 'gb.asm'), ('dead', 'missing.asm'), ('live', 'missing.asm')]
+    for k in (1, 2, 3):
+        for seq in itertools.product(items, repeat=k):
+            if not any(kind == 'dead' for kind, _ in seq):
+                continue
+            for wname, (pre, post) in wrappers.items():
+                ctr += 1
+                if ctr % n != idx:
+                    continue
+                main = [('data', 1, [0x50])]
+                for kind, f in seq:
+                    main += (pre + [('include', f)] + post) if kind == 'dead' else [('include', f)]
+                main += [('data', 2, [('lab', 'GA')]), ('data', 1, [0xEE])]
+                files = {'main.asm': main, 'ga.asm': [('label', 'GA'), ('data', 1, [0x61])], 'gb.asm': [('data', 1, [0x71]), ('include', 'ga.asm')]}
+                if not any(kind == 'live' and f in ('ga.asm', 'gb.asm') for kind, f in seq):
+                    files['main.asm'] = main[:-2] + [('label', 'GA'), ('data', 2, [('lab', 'GA')]), ('data', 1, [0xEE])]
+                ref = R.assemble(PARAMS, files)
+                case = Case(ISA, R.render_files(files))
+                out = acc.run(case)
+                acc.transition()
+                if ref.status == 'DC':
+                    acc.dc(ref.reason)
+                    continue
+                spec = expect_spec(ref)
+                msg = judge_expect(spec, [out])
+                if msg:
+                    acc.violation([case], spec, f'includes {seq} (dead ones under {wname}): {msg}', [out])
+                acc.judge(clause='dead-include-accepted' if ref.status == 'OK' else 'dead-include-rejected', nontrivial_key=('d', seq, wname))
+                acc.state(('d', seq, wname))
+                if ctr % 101 == 0:
                     acc.sample({'files': {k: R.render(v) for k, v in files.items()}, 'reference': spec})
 
 
